@@ -181,9 +181,9 @@ class C13(core.Check):
         'reject:register-inside-expression', 'reject:no-variant-takes-count', 'mnemonic:upper', 'mnemonic:mixed',
         'chosen:variant>=2', 'chosen:specific', 'expect:ACCEPT', 'expect:REJECT',
         'later-candidate-after-nonaccepting-earlier', 'amb:disallowed-pair-mirrored-is-allowed', 'amb:two-specific-entries-accept',
-        'amb:key-vs-relative-address', 'amb:decorated-register-vs-numeric']}
+        'amb:key-vs-relative-address', 'amb:decorated-register-vs-numeric', 'amb:implied-operand-entry-vs-shorter-variant']}
 
-    def gen_isa(self, rng):
+    def gen_isa(self, rng, force_empty=False):
         pool = alt_pool(rng)
         names = sorted(pool)
         sets = {}
@@ -198,6 +198,20 @@ class C13(core.Check):
             sets[f's{si}'] = {'operand_values': {p: pool[p] for p in pick}}
         variants = []
         nv = rng.randrange(1, 4)
+        if force_empty:
+            # an entry with an implied (empty) second operand next to a one-operand variant over the same alternative
+            p = rng.choice([n_ for n_ in names if n_ not in ('rel', 'curly')])
+            s0 = sets[sorted(sets)[0]]['operand_values']
+            s0.setdefault(p, pool[p])
+            ex = [q for q in s0 if q in EXPR_LIKE and q != p]
+            if p in EXPR_LIKE:
+                for q in ex:
+                    del s0[q]
+            two = {'bytecode': {'value': 0xA0, 'size': 8}, 'operands': {'count': 2, 'specific_operands': {'zeta_first': {'list': {
+                'spE_0_' + p: dict(pool[p]), 'spE_1_empty': {'type': 'empty', 'bytecode': {'value': 29, 'size': 5}}}}}}}
+            one = {'bytecode': {'value': 0xA1, 'size': 8}, 'operands': {'count': 1, 'operand_sets': {'list': [sorted(sets)[0]]}}}
+            variants = [two, one] if rng.random() < 0.6 else [one, two]
+            nv = 0
         for vi in range(nv):
             cnt = rng.choice([1, 1, 2])
             ops = {'count': cnt}
@@ -217,6 +231,10 @@ class C13(core.Check):
                 for en, ename in enumerate(['zeta_first', 'alpha_second'][:rng.choice([1, 2, 2])]):
                     lst = {}
                     for k in range(cnt):
+                        if k == cnt - 1 and cnt == 2 and rng.random() < 0.3:
+                            # an implied operand: nothing is written for it, so the statement has one operand fewer than count
+                            lst[f'sp{vi}_{en}_{k}_empty'] = {'type': 'empty', 'bytecode': {'value': 30 - vi - 4 * en, 'size': 5}}
+                            continue
                         p = rng.choice(names)
                         key = f'sp{vi}_{en}_{k}_{p}'
                         lst[key] = dict(pool[p])
@@ -250,15 +268,20 @@ class C13(core.Check):
                     info['accepting'].append(cand[0])
                     chosen = chosen or cand
                 continue
-            if ops['count'] != len(operands):
-                continue
             if 'specific_operands' in ops:
                 n_acc = 0
                 for ename, entry in ops['specific_operands'].items():
                     lst = entry['list']
+                    if sum(1 for c_ in lst.values() if c_['type'] != 'empty') != len(operands):
+                        continue
                     got = []
-                    for (name, conf), o in zip(lst.items(), operands):
-                        op = accepts(name, conf, o, addr)
+                    it_ = iter(operands)
+                    for name, conf in lst.items():
+                        if conf['type'] == 'empty':
+                            got.append({'id': name})
+                            info['empty_in_candidate'] = True
+                            continue
+                        op = accepts(name, conf, next(it_), addr)
                         if op is None:
                             got = None
                             break
@@ -270,7 +293,7 @@ class C13(core.Check):
                         chosen = chosen or cand
                 if n_acc >= 2:
                     info['two_specific_entries_accept'] = True
-            if 'operand_sets' in ops:
+            if 'operand_sets' in ops and ops['count'] == len(operands):
                 got = []
                 for sname, o in zip(ops['operand_sets']['list'], operands):
                     c = choose_in_set(isa['operand_sets'][sname], o, addr)
@@ -307,7 +330,7 @@ class C13(core.Check):
         n = 900 if tier == 'quick' else 15000
         for i in range(n_pre + n):
             rng = core.rng_for(0 if i < n_pre else seed, self.pid, i)
-            isa = self.gen_isa(rng)
+            isa = self.gen_isa(rng, force_empty=(i < n_pre and i % 10 == 3))
             texts = operand_texts(rng)
             mirrored = None
             for v in encode.variants_of(isa, 'amb'):
@@ -338,6 +361,9 @@ class C13(core.Check):
                         confs = [list(e_['list'].values())[k] for e_ in ops_['specific_operands'].values()]
                     cand = [t for t in texts if any(accepts('x', c, t, 0) is not None for c in confs)]
                     operands.append(rng.choice(cand) if cand else rng.choice(texts))
+                if any(c_['type'] == 'empty' for e_ in (ops_.get('specific_operands') or {}).values() for c_ in e_['list'].values()) \
+                        and operands and rng.random() < 0.6:
+                    operands = operands[:-1]
             else:
                 cnt = rng.choice([0, 1, 1, 2, 3])
                 operands = [rng.choice(texts) for _ in range(cnt)]
@@ -369,6 +395,8 @@ class C13(core.Check):
                     if any('/specific' in a for a in acc) and any(a.endswith('/sets') and a.split('/')[0] in
                                                                          {x.split('/')[0] for x in acc if '/specific' in x} for a in acc):
                         tags.add('amb:specific-and-set-accept')
+                if info.get('empty_in_candidate') and len(acc) >= 2:
+                    tags.add('amb:implied-operand-entry-vs-shorter-variant')
                 if info.get('disallowed_hit'):
                     tags.add('amb:disallowed-pair-hit')
                 if mirrored and [op['id'] for op in stmt['ops']] == [mirrored[1][1], mirrored[1][0]] and stmt['spec'] is None:
